@@ -793,6 +793,9 @@ def r10(cx):
     body = F.main_body(ARITH_EXPAND)
     cx.fn(body.fn)
     ev = Q.find_calls(body, ['yash_arith::eval_with_config', 'yash_arith::eval'])
+    if not ev:
+        # the evaluation was extracted into a helper of the same source file (R13 decides that expand passes through it)
+        ev = [(blk, t) for r, lst in sorted(_Glue(F).direct.items()) if F.body(r).file == body.file for b, blk, t in lst]
     cx.require(len(ev) == 1, 'the call of yash_arith::eval(_with_config) was not found in arith::expand')
     envty = ev[0][1]['f'].get('rga') or ev[0][1]['f'].get('ga') or ''
     envty = envty.split(',')[0].strip() if '<' not in envty else envty
@@ -1006,7 +1009,9 @@ class _Glue:
                 out[blk] = t
                 continue
             d = t['f'].get('def')
-            if d and d in self.candidates and d != body.root and self.witness(d) is None:
+            # a function that calls the evaluator itself is judged (and reported) on its own; any other function of the glue
+            # files counts when each of its error-free paths evaluates
+            if d and d != body.root and (d in self.direct or (d in self.candidates and self.witness(d) is None)):
                 out[blk] = t
         for blk, j, st in body.stmts():
             if st['k'] == 'assign' and st['rv']['k'] == 'agg' and st['rv'].get('ak') == 'closure' and \
@@ -1109,6 +1114,8 @@ def r13(cx):
             bad = []
             for blk, j, st in body.stmts():
                 if st['k'] == 'assign' and st['lhs']['l'] in typed and not st['lhs'].get('p'):
+                    if st['rv']['k'] == 'agg' and st['rv'].get('ak') in ('closure', 'coroutine'):
+                        continue          # `async fn` wrapper / a closure returning a Value: its body is examined as a body
                     n_defs += 1
                     if not any(p['l'] in taint for p in Q.rvalue_places(st['rv'])):
                         bad.append(st)
